@@ -13,20 +13,20 @@ SAN = os.path.join(BUILD, "san")
 GUARD = "DBUS_VERIF_HOOKS"
 
 SAN_CFLAGS = ("-O1 -g -fno-omit-frame-pointer -fsanitize=address,undefined -fno-sanitize-recover=undefined "
-              "-fsanitize=fuzzer-no-link -fsanitize-ignorelist=%s/engine/ubsan-ignore.txt -D%s -Wno-error -w" % (VERIF, GUARD))
+              "-fsanitize-coverage=inline-8bit-counters,indirect-calls,pc-table -fsanitize-ignorelist=%s/engine/ubsan-ignore.txt -D%s -Wno-error -w" % (VERIF, GUARD))
 
 CMAKE_OPTS = [
     "-DCMAKE_BUILD_TYPE=None",
     "-DDBUS_BUILD_TESTS=ON", "-DDBUS_ENABLE_EMBEDDED_TESTS=ON", "-DDBUS_ENABLE_MODULAR_TESTS=OFF",
     "-DDBUS_DISABLE_ASSERT=OFF", "-DDBUS_DISABLE_CHECKS=OFF", "-DDBUS_WITH_GLIB=OFF", "-DDBUS_BUILD_X11=OFF",
     "-DENABLE_SYSTEMD=OFF", "-DDBUS_ENABLE_DOXYGEN_DOCS=OFF", "-DDBUS_ENABLE_XML_DOCS=OFF", "-DENABLE_QT_HELP=OFF",
-    "-DDBUS_ENABLE_VERBOSE_MODE=OFF",
+    "-DDBUS_ENABLE_VERBOSE_MODE=ON",
 ]
 
 DBUS_TARGETS = ["dbus-1", "dbus-internal", "dbus-daemon-internal", "launch-helper-internal"]
 
 ENGINE_SRCS = ["grammar.cc", "wire.cc", "stats.cc"]
-OPTIONAL_ENGINE_SRCS = ["gen.cc", "sha1.cc", "busmodel.cc", "inproc_bus.cc", "rawpeer.cc", "libwalk.cc", "matchmodel.cc", "policymodel.cc"]
+OPTIONAL_ENGINE_SRCS = ["gen.cc", "sha1.cc", "busmodel.cc", "inproc_bus.cc", "bushelp.cc", "rawpeer.cc", "libwalk.cc", "matchmodel.cc", "policymodel.cc"]
 
 CXX = "clang++"
 CXXFLAGS = ("-std=gnu++17 -g -O1 -fno-omit-frame-pointer -fsanitize=address,undefined -fno-sanitize-recover=undefined "
@@ -123,7 +123,7 @@ def write_ninja():
     srcs = list(ENGINE_SRCS) + [s for s in OPTIONAL_ENGINE_SRCS if os.path.exists(os.path.join(VERIF, "engine", s))]
     for s in srcs:
         o = os.path.join(obj, "engine_" + s.replace(".cc", ".o"))
-        L.append("build %s: cc %s\n  extra = -fsanitize=fuzzer-no-link" % (o, os.path.join(VERIF, "engine", s)))
+        L.append("build %s: cc %s\n  extra = -fsanitize-coverage=inline-8bit-counters,indirect-calls,pc-table" % (o, os.path.join(VERIF, "engine", s)))
         eng_objs.append(o)
     arch = os.path.join(obj, "libvpengine.a")
     L.append("build %s: ar %s" % (arch, " ".join(eng_objs)))
@@ -139,7 +139,7 @@ def write_ninja():
         for fn in sorted(os.listdir(tooldir)):
             if fn.endswith(".cc"):
                 o = os.path.join(obj, "tool_" + fn[:-3] + ".o")
-                L.append("build %s: cc %s\n  extra = -fsanitize=fuzzer-no-link" % (o, os.path.join(tooldir, fn)))
+                L.append("build %s: cc %s\n  extra = -fsanitize-coverage=inline-8bit-counters,indirect-calls,pc-table" % (o, os.path.join(tooldir, fn)))
                 b = os.path.join(binp, fn[:-3])
                 L.append("build %s: link %s %s | %s\n  ldsan = -fsanitize=address,undefined" % (b, o, arch, " ".join(libs)))
                 bins.append(b)
